@@ -164,3 +164,83 @@ func vc_C17_bezier_straight() {
 		vfAssert(vfAnd(vfAnd(vs[1].X-b.X <= tol, b.X-vs[1].X <= tol), vfAnd(vs[1].Y-b.Y <= tol, b.Y-vs[1].Y <= tol)), "straight span ends at the last control point")
 	}
 }
+
+// G1/G2: a smoothed (or chamfered) corner A-V-B of an open three-vertex
+// polyline. Oracle without trigonometry: with a = A-V, b = B-V, cos = a.b/(|a||b|)
+// the tangent length d satisfies d^2 (1 - cos) = r^2 (1 + cos); the fillet fits
+// iff d <= |a| and d <= |b|. Then the output is A, facets+1 new points, B:
+// the first new point is V + d a/|a|, the last V + d b/|b|, and all of them lie
+// at distance r from the centre c = V + (a/|a| + b/|b|) d / (1 + cos).
+// Otherwise the three vertices are returned unchanged.
+// Bound: facets in {1, 2} (the angle rules of the executor cover (pi-theta)/1
+// and /2), corner angle with |cos| <= 0.99, V at the origin, A on the +x axis
+// (rotation and translation of the corner are outside the claim).
+func vfSmoothCorner(facets int, chamfer bool, fit bool, deep bool) {
+	vfTimeouts(4000, 30000)
+	ax := vfPosParam("a.x", 50)
+	vfAssume(ax >= 0.1)
+	A, V, B := v2.Vec{X: ax}, v2.Vec{}, vfPoint2("b")
+	r := vfPosParam("r", 50)
+	vfAssume(r >= 0.01)
+	a, b := A.Sub(V), B.Sub(V)
+	la, lb := a.Length(), b.Length()
+	vfAssume(lb >= 0.1)
+	dot := a.Dot(b)
+	vfAssume(vfAnd(dot <= 0.99*la*lb, dot >= -0.99*la*lb))
+	// tangent length: d^2 (la lb - dot) = rr^2 (la lb + dot), where rr is the radius the builder uses
+	rr := r
+	p := NewPolygon()
+	p.AddV2(A)
+	if chamfer {
+		p.AddV2(V).Chamfer(r)
+		rr = r * sqrtHalf
+	} else {
+		p.AddV2(V).Smooth(r, facets)
+	}
+	p.AddV2(B)
+	fits := vfAnd(rr*rr*(la*lb+dot) <= la*la*(la*lb-dot), rr*rr*(la*lb+dot) <= lb*lb*(la*lb-dot))
+	if fit {
+		vfAssume(fits)
+	} else {
+		vfAssume(vfNot(fits))
+	}
+	out := p.Vertices()
+	vfReach("corner")
+	if !fit {
+		vfAssert(len(out) == 3, "a fillet that does not fit leaves the vertex list unchanged")
+		if len(out) == 3 {
+			vfAssert(vfAnd(out[1].X == V.X, out[1].Y == V.Y), "a fillet that does not fit leaves the corner vertex unchanged")
+		}
+		return
+	}
+	vfAssert(len(out) == facets+3, "a fitting fillet replaces the corner by facets+1 points")
+	if len(out) != facets+3 {
+		return
+	}
+	tol := vfTol(1e-9, 1e-6)
+	near := func(x, y float64) bool { return vfAnd(x-y <= tol, y-x <= tol) }
+	p0, p1 := out[1], out[facets+1]
+	d2 := p0.Sub(V).Length2()
+	vfAssert(near(d2*(la*lb-dot), rr*rr*(la*lb+dot)), "first fillet point is at the tangent distance r/tan(theta/2) from the corner")
+	vfAssert(vfAnd(near(p0.Cross(a), 0), p0.Dot(a) > 0), "first fillet point lies on the edge towards the previous vertex")
+	if !deep {
+		return
+	}
+	vfAssert(near(p1.Sub(V).Length2(), d2), "last fillet point is at the same tangent distance")
+	vfAssert(vfAnd(near(p1.Cross(b), 0), p1.Dot(b) > 0), "last fillet point lies on the edge towards the next vertex")
+	// centre: c - p0 perpendicular to a, |c - p0| = rr, on B's side
+	s := Sign(a.Cross(b))
+	c := p0.Add(v2.Vec{X: -a.Y, Y: a.X}.MulScalar(s * rr / la))
+	for j := 1; j <= facets+1; j++ {
+		vfAssert(near(out[j].Sub(c).Length2(), rr*rr), "every fillet point lies on the circle of the given radius tangent to the first edge")
+	}
+	vfAssert(near(p1.Sub(c).Dot(b), 0), "the circle is tangent to the second edge at the last fillet point")
+}
+
+func vc_C17_smooth_fit()   { vfSmoothCorner(1+vfCase("facets", 2), false, true, false) }
+func vc_C17_smooth_nofit() { vfSmoothCorner(1+vfCase("facets", 2), false, false, false) }
+func vc_C17_chamfer()      { vfSmoothCorner(1, true, vfCase("fit", 2) == 1, false) }
+
+// thorough: the rotated points as well (last tangent point, all points on the circle, tangency)
+func vt_C17_chamfer_circle() { vfSmoothCorner(1, true, true, true) }
+func vt_C17_smooth_circle()  { vfSmoothCorner(1+vfCase("facets", 2), false, true, true) }
